@@ -156,8 +156,8 @@ def run(ctx):
     quick = ctx.tier == "quick"
     rng = ctx.rng
     cases = answers.load_corpus("C12")
-    cases += answers.gen_cases(ctx, 45 if quick else 1200, (2, 5), (2, 6), [False], ties=0.4, q_per=5, consts=0.08, big=0.15, cost=0.2)
-    cases += answers.gen_cases(ctx, 25 if quick else 600, (2, 5), (2, 6), [True], ties=0.3, q_per=5, consts=0.12, big=0.1, cost=0.15)
+    cases += answers.gen_cases(ctx, 45 if quick else 1200, (2, 5), (2, 6), [False], ties=0.4, q_per=5, consts=0.08, big=0.15, cost=0.2, subs=0.15)
+    cases += answers.gen_cases(ctx, 25 if quick else 600, (2, 5), (2, 6), [True], ties=0.3, q_per=5, consts=0.12, big=0.1, cost=0.15, subs=0.1)
     jobs = []
     for c in cases:
         c = {k: v for k, v in c.items() if not k.startswith("_")}
